@@ -8,7 +8,7 @@
       Err             = AssertionError;   Fuel = the explicit fuel ran out (excluded in the statements)
     [ns] = g_resolution_no_shadow: [true] is the repaired loop (current tree), [false] the pinned loop (D6). *)
 From Coq Require Import ZArith NArith List Bool Lia.
-From Pi2 Require Import Taut.Model Taut.Stages Taut.Sets Taut.Resolution Taut.Complete Taut.Termination Taut.PLModel Taut.ProofLayer Taut.BuildTerm Taut.ProofLayer2 Taut.Glue Taut.Merge Taut.Glue2.
+From Pi2 Require Import Taut.Model Taut.Stages Taut.Sets Taut.Resolution Taut.Complete Taut.Termination Taut.PLModel Taut.ProofLayer Taut.BuildTerm Taut.ProofLayer2 Taut.Glue Taut.Merge Taut.Glue2 Taut.AC Taut.Helpers Taut.Full.
 Import ListNotations.
 
 (* ------------------------------------------------------------------------------------------ *)
@@ -342,3 +342,74 @@ Theorem C09_prove_tautology_conc2_partial : forall simp triv, helper_specs2 simp
       end).
 Proof. exact prove_tautology_conc_modulo2. Qed.
 Print Assumptions C09_prove_tautology_conc2_partial.
+
+(* ------------------------------------------------------------------------------------------ *)
+(** * 7. the remaining helpers modelled and their specs proved: no hypothesis is left
+
+    ac_move_to_front (for \/): the recursion `unroll(term_l, term_r, positions, l, unrolling)` is modelled
+    literally ([unroll], one unit of fuel per call, both asserts, all six branches with assoc / assoc_rev /
+    comm / cong / extract_op) and proved to conclude
+        t0 \/ (t1 \/ ... tn)  <->  the terms at the given (ascending) positions first, the others in order. *)
+Theorem C09_or_move_to_front_conc : forall ps terms,
+  terms <> [] -> incr 0 ps -> (forall p, In p ps -> (p < length terms)%nat) ->
+  or_move_to_front ps terms = Some (k_equiv (fold1 k_or terms) (fold1 k_or (moved ps terms))).
+Proof. exact or_move_to_front_spec. Qed.
+Print Assumptions C09_or_move_to_front_conc.
+Example C09_or_move_to_front_nonvacuous :
+  or_move_to_front [1; 3]%nat (map KVar [0; 1; 2; 3; 4]%N)
+  = Some (k_equiv (fold1 k_or (map KVar [0; 1; 2; 3; 4]%N)) (fold1 k_or (map KVar [1; 3; 0; 2; 4]%N))).
+Proof. vm_compute. reflexivity. Qed.
+
+(** simplify_clause(cl, x)[1] (positions, or_move_to_front, reduce_n_or_duplicates_at_front, equiv_transitivity):
+    discharges H_simplify *)
+Theorem C09_simplify_clause_conc : forall cl x, cl <> [] -> Forall nz cl ->
+  s_simplify cl x = Some (k_equiv (clause_core cl) (clause_core (simplify_clause cl x))).
+Proof. exact s_simplify_spec. Qed.
+Print Assumptions C09_simplify_clause_conc.
+Example C09_simplify_clause_nonvacuous :
+  s_simplify [2; 1; 1; 3]%Z 1%Z = Some (k_equiv (clause_core [2; 1; 1; 3]%Z) (clause_core [1; 2; 3]%Z)).
+Proof. vm_compute. reflexivity. Qed.
+
+(** prove_trivial_clause(cl) (first complementary pair in itertools.combinations order, or_move_to_front, and_r,
+    or_assoc_r, or_l, dneg_elim / imp_refl, modus_ponens): discharges H_trivial *)
+Theorem C09_trivial_clause_conc : forall cl, Forall nz cl -> is_trivial (mkset cl) = true ->
+  s_trivial cl = Some (clause_core cl).
+Proof. exact s_trivial_spec. Qed.
+Print Assumptions C09_trivial_clause_conc.
+Example C09_trivial_clause_nonvacuous :
+  s_trivial [3; 1; 2; -1]%Z = Some (clause_core [3; 1; 2; -1]%Z) /\ is_trivial (mkset [3; 1; 2; -1]%Z) = true.
+Proof. split; vm_compute; reflexivity. Qed.
+
+(** C09_prove_tautology_conc — the proof-object layer at schema level, complete: for EVERY formula, fuel and
+    loop variant, whenever the procedure delivers a verdict, the model of the returned proof (all helpers modelled,
+    nothing assumed) concludes literally the pattern (verdict True) / its negation (verdict False), and declines
+    exactly when the verdict layer declines.  (What remains outside Coq: that each library rule proves its docstring
+    schema — C10 — and that executing the thunks on the interpreters yields these conclusions — checked at run time
+    by Q / QS / QP.) *)
+Theorem C09_prove_tautology_conc : forall ns fuel f r,
+  decide ns fuel f = Ok r ->
+  prove_tautology_p model_pieces ns fuel f =
+  Ok (match r with
+      | Some true => Some (true, expand f)
+      | Some false => Some (false, k_neg (expand f))
+      | None => None
+      end).
+Proof. exact prove_tautology_conc_full. Qed.
+Print Assumptions C09_prove_tautology_conc.
+
+Theorem C09_start_resolution_conc : forall ns fuel cls vd l h,
+  start_resolution ns fuel cls = Ok (vd, l, h) -> clauses_nz cls ->
+  start_resolution_p model_pieces ns fuel cls =
+  Ok (match vd with
+      | Some true => Some (true, cls_core cls)
+      | Some false => Some (false, k_neg (cls_core cls))
+      | None => None
+      end).
+Proof. exact start_resolution_conc_full. Qed.
+Print Assumptions C09_start_resolution_conc.
+
+Example C09_prove_tautology_conc_full_nonvacuous :
+  prove_tautology_p model_pieces true 1000 d6_witness = Ok (Some (true, expand d6_witness)) /\
+  prove_tautology_p model_pieces true 1000 (FAnd (FOr (FVar 0) (FVar 1)) (FAnd (FNeg (FVar 0)) (FNeg (FVar 1))))
+    = Ok (Some (false, k_neg (expand (FAnd (FOr (FVar 0) (FVar 1)) (FAnd (FNeg (FVar 0)) (FNeg (FVar 1))))))).
+Proof. split; vm_compute; reflexivity. Qed.
